@@ -280,3 +280,8 @@ Definition run_of (p : project) (stale : list node) (n : nat) (order : list node
 (** every occurrence of [b] in the chronological log [l] has an [a] before it *)
 Definition precedes (a b : event) (l : list event) : Prop :=
   forall t1 t2, l = t1 ++ b :: t2 -> In a t1.
+
+(** a log that ends early (the real build raised): every event so far is an enabled transition *)
+Definition chk_prefix (p : project) (stale roots order : list node) (n : nat) (tr : list event) : bool :=
+  order_ok p roots order
+  && match acc_run (p_src p) (p_deps p) stale n (init order) tr with Some _ => true | None => false end.
